@@ -103,3 +103,32 @@ def analytic_conf(d: Path, start, stop, dt, release_rows, outvars=("pid", "X", "
     rel.update(release_extra or {})
     return world.base_config(start, stop, dt, g, f, rel, out, tracker=tracker, state=state, ibm=ibm,
                              reference=reference, reversed_=reversed_)
+
+
+def roms_conf(d: Path, forcing_pattern, start, stop, dt, release_rows, outvars=("pid", "X", "Y", "Z"), period=None, numrec=0,
+              layout="sparse", tracker=None, state=None, ibm=None, particle_out=None, reference=None, reversed_=False,
+              filename="out.nc", release_extra=None, out_dtype="f8", subgrid=None, extra_forcing=None, gridfile=None,
+              release_name="release.rls"):
+    """Configuration with the real ROMS grid and forcing on generated files; writes the release file."""
+    d = Path(d)
+    world.write_release(d / release_name, release_rows)
+    out = dict(
+        filename=str(d / filename),
+        output_period=period if period is not None else dt,
+        instance_variables={v: world.ovar("i4" if v == "pid" else out_dtype) for v in outvars},
+        layout=layout,
+    )
+    if numrec:
+        out["numrec"] = numrec
+    if particle_out:
+        out["particle_variables"] = particle_out
+    g = dict(module="ladim.ROMS", filename=str(gridfile) if gridfile else str(sorted(Path(d).glob(Path(forcing_pattern).name))[0]) if "*" in str(forcing_pattern) else str(forcing_pattern))
+    if subgrid is not None:
+        g["subgrid"] = list(subgrid)
+    f = dict(module="ladim.ROMS", filename=str(forcing_pattern))
+    if extra_forcing:
+        f["extra_forcing"] = list(extra_forcing)
+    rel = dict(release_file=str(d / release_name))
+    rel.update(release_extra or {})
+    return world.base_config(start, stop, dt, g, f, rel, out, tracker=tracker, state=state, ibm=ibm,
+                             reference=reference, reversed_=reversed_)
